@@ -385,6 +385,7 @@ Proof.
   intros I Hh Hme. unfold handle_pp.
   destruct (validate_pp c (tc_t x) r s) eqn:Ev; cbn [negb]; [|exact I].
   destruct (validate_pp_true _ _ _ Ev) as (V1 & V2 & V3 & V4 & V5).
+  destruct (N.eqb (tc_v x) (r_view r)); cbn [negb]; [|exact I].
   destruct (ctx_ok wm shut _); cbn [negb]; [|exact I].
   destruct (validProposal _ _ _ _); cbn [negb]; [|exact I].
   apply process_pp_inv; auto.
@@ -651,7 +652,7 @@ Qed.
 Lemma thandle_hc x m : same_hc x (thandle c wm shut x m).
 Proof.
   destruct m; cbn [thandle].
-  - unfold handle_pp. destruct (negb _); [split; reflexivity|]. destruct (negb _); [split; reflexivity|].
+  - unfold handle_pp. destruct (negb _); [split; reflexivity|]. destruct (negb _); [split; reflexivity|]. destruct (negb _); [split; reflexivity|].
     destruct (negb _); [split; reflexivity|]. apply process_pp_hc.
   - unfold handle_p. repeat (match goal with |- same_hc _ (if ?b then _ else _) => destruct b; [split; reflexivity|] end).
     eapply same_hc_trans; [|apply check_prepared_hc]. frame_tac.
@@ -999,6 +1000,7 @@ Proof.
   destruct m; cbn [thandle] in Hin.
   - right. unfold handle_pp in Hin.
     destruct (validate_pp c (tc_t x) r0 s0) eqn:Ev; cbn [negb] in Hin; [|contradiction].
+    destruct (N.eqb (tc_v x) (r_view r0)); cbn [negb] in Hin; [|contradiction].
     destruct (ctx_ok wm shut _); cbn [negb] in Hin; [|contradiction].
     destruct (validProposal _ _ _ _) eqn:Evp; cbn [negb] in Hin; [|contradiction].
     destruct (PP _ _ _ _ Hin Hnot) as [A B]. exists r0, s0, b. repeat split; auto.
@@ -1347,6 +1349,7 @@ Proof.
   intros I Hh Hme. unfold handle_pp.
   destruct (validate_pp c (tc_t x) r s) eqn:Ev; cbn [negb]; [|exact I].
   destruct (validate_pp_true _ _ _ _ Ev) as (V1 & V2 & V3 & V4 & V5).
+  destruct (N.eqb (tc_v x) (r_view r)); cbn [negb]; [|exact I].
   destruct (ctx_ok wm shut _); cbn [negb]; [|exact I].
   destruct (validProposal _ _ _ _) eqn:Evp; cbn [negb]; [|exact I].
   apply process_pp_sinv; auto. rewrite <- Hh. apply (validProposal_commits _ _ _ _ Evp).
